@@ -11,7 +11,6 @@ import (
 	"path/filepath"
 	"strconv"
 	"strings"
-	"testing"
 
 	"google.golang.org/protobuf/proto"
 	"google.golang.org/protobuf/types/pluginpb"
@@ -304,8 +303,6 @@ func init() {
 		},
 	}
 }
-
-func TestC01(t *testing.T) { Check(t, "C01") }
 
 func firstN(s []string, n int) []string {
 	if len(s) > n {
